@@ -566,6 +566,7 @@ type OpFut = Pin<Box<dyn Future<Output = OpOut>>>;
 struct HeldFut {
     fut: Option<OpFut>,
     hd: *mut ContextHandle,
+    owned: bool, // false: `hd` points at the handle stored in World.handles (startown), which outlives the future
 }
 impl Future for HeldFut {
     type Output = OpOut;
@@ -576,7 +577,9 @@ impl Future for HeldFut {
 impl Drop for HeldFut {
     fn drop(&mut self) {
         self.fut = None;
-        unsafe { drop(Box::from_raw(self.hd)) };
+        if self.owned {
+            unsafe { drop(Box::from_raw(self.hd)) };
+        }
     }
 }
 struct OpTask {
@@ -602,7 +605,7 @@ struct World {
     ctx_fut: CtxFut,
     ops: BTreeMap<usize, OpTask>,
     streams: BTreeMap<usize, StreamTask>,
-    handles: BTreeMap<usize, ContextHandle>,
+    handles: BTreeMap<usize, Box<ContextHandle>>, // boxed: `startown` borrows a handle in place
     ctx: Option<Box<Ctx>>,
     rd: MockRead,
     wr: MockWrite,
@@ -640,7 +643,7 @@ impl World {
         let wr = MockWrite::default();
         ctx.set_up((rd.clone(), wr.clone()));
         let mut handles = BTreeMap::new();
-        handles.insert(0, handle);
+        handles.insert(0, Box::new(handle));
         World {
             ctx_fut: CtxFut::None,
             ops: BTreeMap::new(),
@@ -996,17 +999,20 @@ impl World {
                 w.chunks = args[1..].iter().map(|a| num(a)).collect();
                 w.chunk_idx = 0;
             }
-            "start" => {
+            "start" | "startown" => {
                 let i: usize = num(args[0]);
                 let h: usize = num(args[1]);
-                let Some(handle) = self.handles.get(&h) else {
+                let own = cmd == "startown";
+                let Some(handle) = self.handles.get_mut(&h) else {
                     self.emit(format!("? handle {}", h));
                     return;
                 };
                 // The future stored is the one the library's method itself returns, created here and now (an `async fn`
                 // does nothing before its first poll; a method that did part of its work eagerly would show). It borrows
                 // its own clone of the handle, which HeldFut keeps alive exactly as long as the future.
-                let hd: *mut ContextHandle = Box::into_raw(Box::new(handle.clone()));
+                // `startown`: the method is called on the stored handle itself, no clone is made (the script keeps the handle
+                // alive and starts no other operation on it until this one is over - what `&mut self` enforces for callers)
+                let hd: *mut ContextHandle = if own { &mut **handle as *mut ContextHandle } else { Box::into_raw(Box::new((**handle).clone())) };
                 let h: &'static mut ContextHandle = unsafe { &mut *hd };
                 let kind = args[2];
                 let rest = &args[3..];
@@ -1037,7 +1043,7 @@ impl World {
                     }
                     _ => panic!("op kind {}", kind),
                 };
-                let fut: OpFut = Box::pin(HeldFut { fut: Some(inner), hd });
+                let fut: OpFut = Box::pin(HeldFut { fut: Some(inner), hd, owned: !own });
                 self.ops.insert(i, OpTask { fut: Some(fut), flag: new_flag(), polled: false, sub: None });
             }
             "poll" | "fpoll" => {
